@@ -94,7 +94,7 @@ func discharge(obls []*Oblig, workers int) {
 						}
 						os.WriteFile("/tmp/weak.smt2", []byte(buildScript(o.queryPC(weakPC(o.PC)), false)), 0o644)
 					}
-					if r := Solve(o.queryPC(weakPC(o.PC)), 3, 3); r.Status == "unsat" {
+					if r := Solve(o.queryPC(weakPC(o.PC)), 8, 8); r.Status == "unsat" {
 						r.Solver += "+weak-pc"
 						o.Res = r
 						continue
